@@ -436,6 +436,149 @@ Qed.
 Theorem idempotent a s' : evs (unparse a) s' -> unparse s' = unparse a.
 Proof. intros H. rewrite (evs_functional _ _ _ H (roundtrip a)). reflexivity. Qed.
 
+(* ---- more fuel never changes an answer ---- *)
+
+Lemma mono f :
+  (forall min ts r, pexp f min ts = Some r -> pexp (S f) min ts = Some r) /\
+  (forall min l lv ts r, ploop f min l lv ts = Some r -> ploop (S f) min l lv ts = Some r) /\
+  (forall ts r, punary f ts = Some r -> punary (S f) ts = Some r) /\
+  (forall ts r, pprimary f ts = Some r -> pprimary (S f) ts = Some r) /\
+  (forall x acc ts r, pidx f x acc ts = Some r -> pidx (S f) x acc ts = Some r) /\
+  (forall ts r, pargs f ts = Some r -> pargs (S f) ts = Some r).
+Proof.
+  induction f as [|f (IH1 & IH2 & IH3 & IH4 & IH5 & IH6)].
+  { repeat split; intros; discriminate. }
+  split; [|split; [|split; [|split; [|split]]]].
+  - intros min ts r H. cbn [pexp] in H. 
+    destruct (punary f ts) as [[[e lv] ts1]|] eqn:E; [|discriminate].
+    change (pexp (S (S f)) min ts) with
+      (match punary (S f) ts with Some (e, lv, ts1) => ploop (S f) min e lv ts1 | None => None end).
+    rewrite (IH3 _ _ E). apply IH2, H.
+  - intros min l lv ts r H. cbn [ploop] in H.
+    change (ploop (S (S f)) min l lv ts) with
+      (match ts with
+       | TOp o :: ts' =>
+           if Nat.leb min (lvl o) && Nat.leb (lreq o) lv then
+             match pexp (S f) (rreq o) ts' with
+             | Some (rhs, ts'') => ploop (S f) min (Bin o l rhs) (lvl o) ts''
+             | None => None
+             end
+           else Some (l, ts)
+       | _ => Some (l, ts)
+       end).
+    destruct ts as [|[] ts']; try exact H.
+    destruct (Nat.leb min (lvl o) && Nat.leb (lreq o) lv); [|exact H].
+    destruct (pexp f (rreq o) ts') as [[rhs ts'']|] eqn:E; [|discriminate].
+    rewrite (IH1 _ _ _ E). apply IH2, H.
+  - intros ts r H. cbn [punary] in H.
+    change (punary (S (S f)) ts) with
+      (match ts with
+       | TNot :: ts' => match punary (S f) ts' with Some (e, _, r) => Some (Not e, 8, r) | None => None end
+       | _ => match pprimary (S f) ts with Some (p, r) => Some (postloop p 10 r) | None => None end
+       end).
+    destruct ts as [|[] ts'];
+      try (destruct (pprimary f _) as [[p0 r0]|] eqn:E; [|discriminate]; rewrite (IH4 _ _ E); exact H).
+    destruct (punary f ts') as [[[e lv] r0]|] eqn:E; [|discriminate]. rewrite (IH3 _ _ E). exact H.
+  - intros ts r H. cbn [pprimary] in H.
+    change (pprimary (S (S f)) ts) with
+      (match ts with
+       | TAtom a :: r => Some (Atom a, r)
+       | TId x :: r => pidx (S f) x ENil r
+       | TBuiltin g :: TLP :: TRP :: r => Some (Call g ENil, r)
+       | TBuiltin g :: TLP :: r =>
+           match pargs (S f) r with Some (es, TRP :: r') => Some (Call g es, r') | _ => None end
+       | TLP :: r => match pexp (S f) 1 r with Some (e, TRP :: r') => Some (e, r') | _ => None end
+       | _ => None
+       end).
+    destruct ts as [|[] ts']; try exact H.
+    + apply IH5, H.
+    + destruct ts' as [|[] ts2]; try exact H.
+      destruct ts2 as [|[] ts3]; try exact H;
+        (destruct (pargs f _) as [[es r0]|] eqn:E; [|discriminate]; rewrite (IH6 _ _ E); exact H).
+    + destruct (pexp f 1 ts') as [[e r0]|] eqn:E; [|discriminate]. rewrite (IH1 _ _ _ E). exact H.
+  - intros x acc ts r H. cbn [pidx] in H.
+    change (pidx (S (S f)) x acc ts) with
+      (match ts with
+       | TLB :: r => match pargs (S f) r with
+                     | Some (es, TRB :: r') => pidx (S f) x (eapp acc es) r'
+                     | _ => None end
+       | _ => Some (Id x acc, ts)
+       end).
+    destruct ts as [|[] ts']; try exact H.
+    destruct (pargs f ts') as [[es r0]|] eqn:E; [|discriminate]. rewrite (IH6 _ _ E).
+    destruct r0 as [|[] r1]; try discriminate. apply IH5, H.
+  - intros ts r H. cbn [pargs] in H.
+    change (pargs (S (S f)) ts) with
+      (match pexp (S f) 1 ts with
+       | Some (e, TComma :: r) =>
+           match pargs (S f) r with Some (es, r') => Some (ECons e es, r') | None => None end
+       | Some (e, r) => Some (ECons e ENil, r)
+       | None => None
+       end).
+    destruct (pexp f 1 ts) as [[e r0]|] eqn:E; [|discriminate]. rewrite (IH1 _ _ _ E).
+    destruct r0 as [|[] r1]; try exact H.
+    destruct (pargs f r1) as [[es r2]|] eqn:E2; [|discriminate]. rewrite (IH6 _ _ E2). exact H.
+Qed.
+
+Lemma pexp_mono f f' min ts r : f <= f' -> pexp f min ts = Some r -> pexp f' min ts = Some r.
+Proof. induction 1 as [|m Hle IH]; [auto|]. intros E. apply (mono m), IH, E. Qed.
+Lemma punary_mono f f' ts r : f <= f' -> punary f ts = Some r -> punary f' ts = Some r.
+Proof. induction 1 as [|m Hle IH]; [auto|]. intros E. apply (mono m), IH, E. Qed.
+
+Lemma punary_unique f k ts x y : punary f ts = Some x -> punary k ts = Some y -> x = y.
+Proof.
+  intros A B.
+  pose proof (punary_mono f (max f k) ts x ltac:(lia) A) as A'.
+  pose proof (punary_mono k (max f k) ts y ltac:(lia) B) as B'. congruence.
+Qed.
+
+(* left of an assignment sign, the expression parser returns the unary or nothing *)
+Lemma pexp_before_assign f ts l lv a r :
+  punary f ts = Some (l, lv, TAssign a :: r) ->
+  forall k, pexp k 1 ts = None \/ pexp k 1 ts = Some (l, TAssign a :: r).
+Proof.
+  intros U k. destruct k as [|k]; [left; reflexivity|]. cbn [pexp].
+  destruct (punary k ts) as [[[l0 lv0] r0]|] eqn:E; [|left; reflexivity].
+  pose proof (punary_unique _ _ _ _ _ U E) as Q. injection Q as <- <- <-.
+  destruct k as [|k]; [left; reflexivity|]. right. reflexivity.
+Qed.
+
+Lemma pstmt_assign_stable f f' ts l lv a r e :
+  f <= f' -> punary f ts = Some (l, lv, TAssign a :: r) -> pexp f 1 r = Some (e, []) ->
+  pstmt f' ts = Some (SAssign a l e).
+Proof.
+  intros Hf U E. unfold pstmt.
+  rewrite (punary_mono f f' ts _ Hf U), (pexp_mono f f' 1 r _ Hf E).
+  destruct (pexp_before_assign f ts l lv a r U f') as [Q|Q]; rewrite Q; reflexivity.
+Qed.
+
+(* an answer of the statement parser at some fuel is its answer from then on *)
+Lemma pstmt_stable f ts s : pstmt f ts = Some s -> evs ts s.
+Proof.
+  intros H. exists f. intros f' Hf.
+  assert (H' := H). unfold pstmt in H'.
+  destruct (pexp f 1 ts) as [[e r]|] eqn:E1.
+  - destruct r as [|t0 r0].
+    + unfold pstmt. rewrite (pexp_mono f f' 1 ts _ Hf E1). exact H'.
+    + destruct (punary f ts) as [[[l lv] r1]|] eqn:E2; [|discriminate].
+      destruct r1 as [|[] r2]; try discriminate.
+      destruct (pexp f 1 r2) as [[e2 r3]|] eqn:E3; [|discriminate].
+      destruct r3; [|discriminate]. injection H' as <-.
+      eapply pstmt_assign_stable; eassumption.
+  - destruct (punary f ts) as [[[l lv] r1]|] eqn:E2; [|discriminate].
+    destruct r1 as [|[] r2]; try discriminate.
+    destruct (pexp f 1 r2) as [[e2 r3]|] eqn:E3; [|discriminate].
+    destruct r3; [|discriminate]. injection H' as <-.
+    eapply pstmt_assign_stable; eassumption.
+Qed.
+
+(* whenever the fixed-fuel parser answers on the formatter's output, it answers
+   with the tree that was formatted *)
+Theorem parse_unparse_sound a s' : parse (unparse a) = Some s' -> s' = a.
+Proof.
+  intros H. apply pstmt_stable in H. exact (evs_functional _ _ _ H (roundtrip a)).
+Qed.
+
 (* ---- the printer before the repair ---- *)
 
 Definition one := Atom (AInt 1).
